@@ -97,6 +97,11 @@ fn ordinates(r: &mut Rng, xs: &[f64]) -> (Vec<f64>, &'static str) {
         8 => ((0..n).map(|_| r.small_int(3)).collect(), "small_integers_with_repeats"),
         _ => (xs.iter().map(|x| (x * 0.37).sin()).collect(), "smooth"),
     };
+    // knots must be finite: shrink the scale until every scaled ordinate (and every difference of two) is
+    let mut ysc = ysc;
+    while ys.iter().any(|y: &f64| !(y * ysc).abs().lt(&1e300)) {
+        ysc *= 1e-20;
+    }
     let mut ys: Vec<f64> = ys.into_iter().map(|y: f64| y * ysc).collect();
     let mut name = name;
     if r.chance(0.04) {
